@@ -726,6 +726,11 @@ impl Engine for GenEngine {
             }
             _ => {
                 let v = ctx.with_tape(random_ir);
+                ctx.count("probe.random_ir");
+                let simple: Vec<&str> = v["types"].as_array().map(|a| a.iter().filter_map(|d| d[d["type"].as_str().unwrap_or("")]["typeName"]["name"].as_str()).collect()).unwrap_or_default();
+                if simple.iter().enumerate().any(|(i, n)| simple[..i].contains(n)) {
+                    ctx.count("probe.same_simple_type_name_in_two_packages");
+                }
                 ("random".to_string(), v.to_string())
             }
         };
